@@ -679,6 +679,12 @@ def g_pool_measurements(o, M):
     return {"fn": "pool_measurements", "args": {"sources": [ref("measurements", o.randrange(n)) for _ in range(k)]}}
 
 
+def _best_orders(o, npts, max_n, max_m):
+    if npts > 12:
+        return 2, 1
+    return (min(max_n, 3), min(max_m, 2)) if o.random() < 0.7 else (1, min(max_m, 3))
+
+
 def _is_decay(M, k):
     ms = M.spec["measurements"][k]
     pts = ms.get("points")
@@ -689,6 +695,11 @@ def _is_decay(M, k):
     return hi[2] > 0 and lo[2] / hi[2] > 8.0          # p falls by about an order of magnitude across x
 
 
+def iv(x):
+    """Plain int value of an order argument (orders may be wrapped as numpy integers: {"$npint": v})."""
+    return x["$npint"] if isinstance(x, dict) else x
+
+
 def g_fit(o, M, best=None, allow_none=True, max_n=3, max_m=3):
     k = o.randrange(len(M.spec["measurements"]))
     npts, ntemps = meas_info(M, k)
@@ -696,7 +707,10 @@ def g_fit(o, M, best=None, allow_none=True, max_n=3, max_m=3):
     best = (o.random() < (0.7 if decay else 0.4)) if best is None else best
     a = {"data": ref("measurements", k)}
     if best:
-        hi_n, hi_m = (2, 1) if npts > 12 else ((min(max_n, 3), min(max_m, 2)) if o.random() < 0.7 else (1, min(max_m, 3)))
+        if 12 < npts <= 40 and o.random() < 0.12:
+            hi_n, hi_m = 3, 2          # a large scan (points x candidates): expensive, so rare
+        else:
+            hi_n, hi_m = _best_orders(o, npts, max_n, max_m)
         if allow_none and npts <= 9 and o.random() < 0.3:
             pass
         else:
@@ -705,6 +719,8 @@ def g_fit(o, M, best=None, allow_none=True, max_n=3, max_m=3):
             if npts <= 5 and o.random() < 0.5:
                 a["n"] = 3                      # as many (or more) orders as points: the library only warns about it
                 a["m"] = min(a["m"], 1)
+            if 30 <= npts <= 40 and ntemps > 1 and o.random() < 0.35:
+                a["n"], a["m"] = 3, 2           # the largest scan the stated quantifier allows with 12 candidates (points x candidates > 400)
     else:
         if allow_none and npts <= 16 and o.random() < 0.15:
             pass
@@ -720,6 +736,10 @@ def g_fit(o, M, best=None, allow_none=True, max_n=3, max_m=3):
         a["component_index"] = 1
     elif r < 0.45:
         a["component_index"] = o.choice([2, -1])      # invalid: must raise without touching anything
+    if o.random() < 0.08:
+        for key in ("n", "m"):
+            if key in a and o.random() < 0.7:
+                a[key] = {"$npint": a[key]}           # numpy.int64 instead of int (orders taken from an array / a data frame)
     return {"fn": "find_best_fit" if best else "fit", "args": a}
 
 
